@@ -144,6 +144,11 @@ func (w *When) In(specArgsOrExprs ...interface{}) *When {
 
 // Return 指定返回值
 func (w *When) Return(value ...interface{}) *When {
+	if w.curMatch != nil && w.curMatch == w.defaultReturns {
+		// 追加默认返回值序列, 默认返回值不作为条件参与匹配
+		w.curMatch.AddResult(value)
+		return w
+	}
 	if w.curMatch != nil {
 		w.curMatch.AddResult(value)
 		w.matches = append(w.matches, w.curMatch)
